@@ -2,19 +2,58 @@
 #![allow(unused_imports, static_mut_refs)]
 use super::*;
 use crate::harness_common::*;
-use crate::prelude::isqrt_dep::{SQRT_CALLS, SQRT_RESULT};
+use crate::prelude::isqrt_dep::{EXPECTED_S, EXPECTED_X, SQRT_CALLS, SQRT_RESULT};
 use crate::prelude::ErrorKind;
-use crate::prelude::SteelVal::{BigNum, IntV, NumV};
+use crate::prelude::SteelVal::{BigNum, IntV, ListV, NumV};
 
-fn check(x: i128, r: &Result<SteelVal>) {
-    let s = unsafe { SQRT_RESULT };
+// BOUNDED: the root ranges over a table (small roots, 2^16, 2^26+1 - just above the 2^52 limit of exact
+// floating-point roots -, 2^31-1, 2^31, the largest fixnum root), the remainder over EVERY value 0..=2s.
+const ROOTS: [isize; 10] = [0, 1, 2, 3, 65536, 67108865, 94906266, 2147483647, 2147483648, 3037000499];
+
+#[kani::proof]
+#[kani::unwind(12)]
+fn exact_integer_impl_contract() {
+    let i: usize = kani::any();
+    kani::assume(i < 10);
+    let s = ROOTS[i];
+    let d: isize = kani::any();
+    kani::assume(d >= 0 && d <= 2 * s);
+    let sq = s * s;
+    kani::assume(d <= isize::MAX - sq);
+    let x = sq + d;
+    unsafe {
+        SQRT_CALLS = 0;
+        EXPECTED_X = x;
+        EXPECTED_S = s;
+    }
+    let (a, b) = exact_integer_impl::<isize>(&x);
     assert!(unsafe { SQRT_CALLS } == 1);
-    match two_list(r) {
-        Some((a, b)) => {
-            assert!(int_of(&a) == Some(s), "exact-integer-sqrt: the root is not the integer square root");
-            assert!(int_of(&b) == Some(x - s * s), "exact-integer-sqrt: the remainder is not x - s*s");
+    assert!(a == s, "exact-integer-sqrt: the root is not the integer square root");
+    assert!(b == d, "exact-integer-sqrt: the remainder is not x - s*s");
+}
+
+/// the primitive itself takes root and remainder of a fixnum from that routine (no floating-point shortcut)
+#[kani::proof]
+#[kani::unwind(12)]
+fn exact_integer_sqrt_delegates() {
+    let i: usize = kani::any();
+    kani::assume(i < 3);
+    let (s, d) = [(4isize, 1isize), (67108865, 0), (3037000499, 7)][i];
+    let x = s * s + d;
+    unsafe {
+        SQRT_CALLS = 0;
+        EXPECTED_X = x;
+        EXPECTED_S = s;
+    }
+    let r = exact_integer_sqrt(&IntV(x));
+    assert!(unsafe { SQRT_CALLS } == 1, "the integer root is not taken from the exact integer routine");
+    match &r {
+        Ok(ListV(l)) => {
+            assert!(l.0.len() == 2);
+            assert!(matches!(&l.0[0], IntV(a) if *a == s), "exact-integer-sqrt: wrong root");
+            assert!(matches!(&l.0[1], IntV(b) if *b == d), "exact-integer-sqrt: wrong remainder");
         }
-        None => assert!(false, "exact-integer-sqrt of a non-negative integer must be a list of two integers"),
+        _ => assert!(false, "exact-integer-sqrt of a non-negative fixnum must be a list of two fixnums"),
     }
 }
 
